@@ -56,13 +56,28 @@ def find_tokenizer(prog):
     f = prog.functions.get(PARSER + '._parse_text_rule')
     if f is None:
         raise AnalysisError('anchor vanished: text-rule parser')
-    for n in ast.walk(f.node):
-        if isinstance(n, ast.For) and isinstance(n.iter, ast.Call):
-            g = prog.callee_of(f, n.iter)
-            if g is not None and any(isinstance(x, (ast.Yield,
-                                                    ast.YieldFrom))
-                                     for x in ast.walk(g.node)):
-                return g, f, n
+    # in the text-rule parser itself, or in a helper of the parser module
+    # it hands the rule text to
+    todo, seen = [f], set()
+    while todo:
+        h = todo.pop(0)
+        if h.qual in seen:
+            continue
+        seen.add(h.qual)
+        for n in ast.walk(h.node):
+            if isinstance(n, ast.For) and isinstance(n.iter, ast.Call):
+                g = prog.callee_of(h, n.iter)
+                if g is not None and any(isinstance(x, (ast.Yield,
+                                                        ast.YieldFrom))
+                                         for x in ast.walk(g.node)):
+                    return g, h, n
+        for c in ast.walk(h.node):
+            if isinstance(c, ast.Call):
+                g = prog.callee_of(h, c)
+                if g is not None and g.module is f.module and \
+                        g.cls is None and len(seen) < 6 and \
+                        g.name != '_parse_check':
+                    todo.append(g)
     raise AnalysisError('cannot find the tokenizer generator consumed by '
                         'the text-rule parser')
 
